@@ -174,6 +174,21 @@ def run(ctx):
                 e2, _v = gen_elem_value(rng, st, et)
                 elems.insert(rng.randint(0, len(elems)), e2)
         cases.append((elems, v, st, et, 'rand'))
+    # 2b. segments whose shortest and longest matches differ by a trailing newline (alternation, optional and lazy
+    #     quantifiers): whole-string matching must consider every way the segment can match
+    for _ in range(ctx.budget(400, 8000)):
+        st, et = '<', '>'
+        lit = strip_tags(gen_str(rng, 3), st, et) if rng.random() < 0.6 else ''
+        base = strip_tags(gen_str(rng, 3), st, et).replace('\n', '') or 'a'
+        eb = re.escape(base)
+        seg = pick(rng, [eb + '|' + eb + '\n', eb + '\n|' + eb, eb + r'\s??', eb + '\n??', '[^/]+?', '[^/]*?',
+                         '(?:' + eb + '|' + eb + '\n)', eb + '(|\n)', r'\w+?\s*?', eb + '[\n]{0,1}?', '(?s).+?',
+                         eb + '|' + eb + 'x', eb + 'x??', eb[:1] + '|' + eb])
+        elem = lit + st + seg + et
+        if rng.random() < 0.3:
+            elem += st + pick(rng, ['|\n', '\n??', 'b|\n', r'\s*?']) + et
+        v = lit + base + pick(rng, ['\n', '\n', '\n', '', '\n\n', 'x', 'x\n'])
+        cases.append(([elem], v, st, et, 'rand'))
     qobj = proto.build_inquiry({'resource': '', 'action': '', 'subject': '', 'context': {}})
     qline = proto.enc_inquiry_obj(qobj)
     lines, objs = [], []
@@ -259,11 +274,22 @@ def _shared_checker_stream(ctx, out, rng):
         base = pick(rng, ['a', 'ab', 'x1'])
         (s1, e1), (s2, e2) = pairs
         # the same element text means different things under the two tag pairs
-        elem = '%s%s.%s%s%s+%s' % (base, s1, e1, s2, 'z', e2)
+        shape = rng.random()
+        if shape < 0.5:
+            elem = '%s%s.%s%s%s+%s' % (base, s1, e1, s2, 'z', e2)
+            vals = [base + 'q' + s2 + 'z+' + e2, base + s1 + '.' + e1 + 'zz', base + 'qzz', elem, base]
+        elif shape < 0.75:
+            # unbalanced under the first pair, a well-formed segment under the second
+            elem = '%s%s%sz+%s' % (base, s2, s1, e2)
+            vals = [base + s1 + 'z', base + s1 + 'zz', base + 'z', elem, base + s2 + s1 + 'z+' + e2]
+        else:
+            # a malformed regular expression under the first pair, literal text inside a segment of the second
+            elem = '%s%s[%s(%s%s]%s' % (base, s2, s1, e1, 'x', e2)
+            vals = [base + s1, base + '(', base + 'x', base + e1, elem]
         seq = []
         for _ in range(rng.randint(3, 8)):
             st, et = pick(rng, pairs)
-            v = pick(rng, [base + 'q' + s2 + 'z+' + e2, base + s1 + '.' + e1 + 'zz', base + 'qzz', elem, base])
+            v = pick(rng, vals)
             seq.append((st, et, v))
         for st, et, v in seq:
             out.evaluations += 1
